@@ -42,7 +42,16 @@ PLAIN_NAMES = [f'VerifPlain{i}' for i in range(8)]
 for _n in PLAIN_NAMES:
     globals()[_n] = _plain_type(_n)
 
+class VerifSubTelepod(Telepod):
+    """a user-defined telepod (module level: picklable)"""
+
+
 from .desc import EXTRA_TYPES  # noqa: E402
+from . import refmodel as _R  # noqa: E402
+
+EXTRA_TYPES['VerifSubTelepod'] = VerifSubTelepod
+_R.CUSTOM.update({'VerifSubKey': {'holdable': True, 'base': 'Key'}, 'VerifSubExit': {'base': 'Exit'}, 'VerifSubTelepod': {'base': 'Telepod'}})
+_R.CUSTOM.update({_n: {'holdable': True, 'base': None} for _n in PLAIN_NAMES})
 
 for _n in PLAIN_NAMES:
     EXTRA_TYPES[_n] = (lambda cls: (lambda colour: cls()))(globals()[_n])
@@ -50,10 +59,10 @@ for _n in PLAIN_NAMES:
 EXTRA_TYPES['VerifSubKey'] = VerifSubKey
 EXTRA_TYPES['VerifSubExit'] = VerifSubExit
 
-TYPES = {**{_n: globals()[_n] for _n in PLAIN_NAMES}, 'VerifSubExit': VerifSubExit, 'VerifSubKey': VerifSubKey, 'Hidden': Hidden, 'NoneGridObject': NoneGridObject, 'Floor': Floor, 'Wall': Wall, 'Exit': Exit, 'Door': Door, 'Key': Key, 'MovingObstacle': MovingObstacle,
+TYPES = {**{_n: globals()[_n] for _n in PLAIN_NAMES}, 'VerifSubTelepod': VerifSubTelepod, 'VerifSubExit': VerifSubExit, 'VerifSubKey': VerifSubKey, 'Hidden': Hidden, 'NoneGridObject': NoneGridObject, 'Floor': Floor, 'Wall': Wall, 'Exit': Exit, 'Door': Door, 'Key': Key, 'MovingObstacle': MovingObstacle,
          'Box': Box, 'Telepod': Telepod, 'Beacon': Beacon}
-TYPE_ORDER = [t for t in TYPES if t not in ('Hidden', 'NoneGridObject', 'VerifSubKey', 'VerifSubExit') and not t.startswith('VerifPlain')]
-COLOURED = ('Exit', 'Door', 'Key', 'Telepod', 'Beacon', 'VerifSubKey', 'VerifSubExit')
+TYPE_ORDER = [t for t in TYPES if t not in ('Hidden', 'NoneGridObject', 'VerifSubKey', 'VerifSubExit', 'VerifSubTelepod') and not t.startswith('VerifPlain')]
+COLOURED = ('Exit', 'Door', 'Key', 'Telepod', 'Beacon', 'VerifSubKey', 'VerifSubExit', 'VerifSubTelepod')
 REPS = ['default', 'no-overlap', 'compact']
 SHIPPED_TYPE_SETS = [
     ('Wall', 'Floor', 'Exit'),
